@@ -33,7 +33,7 @@
 using solref::Sol;
 static vx::Report R;
 static vx::Shard S;
-static bool THOROUGH = false;
+static bool THOROUGH = false, COUNT_ONLY = false;
 
 // ---------------------------------------------------------------- resource policy: refuse giant allocations
 static const size_t ALLOC_LIMIT = (size_t)256 << 20;
@@ -429,30 +429,33 @@ static std::string deviate_binary(const Sol& s, vx::Explorer& ex) {
 
 // ---------------------------------------------------------------- families
 static void family_base_and_dev(const std::vector<Base>& B) {
-  // combos (base, format, sizes, handler) are dealt to shards round-robin; inside a combo every
-  // deviation sequence within the bound is executed
-  long long combo = 0;
+  // bound 1: combos (base, format, sizes, handler) are dealt to shards round-robin and every sequence
+  // with <= 1 deviation is executed inside the combo.
+  // bound 2 (thorough; read_all and SOLHandler_Easy at equal sizes): every shard enumerates the combo's
+  // sequences and executes those whose running index is its own (balances the large spaces).
+  long long combo = 0, pairidx = 0;
   for (size_t bi = 0; bi < B.size(); ++bi) for (int binary = 0; binary < 2; ++binary) {
     auto SZ = size_variants(B[bi].s);
     for (size_t zi = 0; zi < SZ.size(); ++zi) for (int h = 0; h < N_HANDLERS; ++h) {
       // quick: all handlers at equal sizes, all sizes with read_all / Easy; thorough: full cross product
       bool wanted = THOROUGH || zi == 0 || h == solmon::READ_ALL || h == H_EASY;
       if (!wanted) continue;
-      long long c = combo++;
-      if (!S.mine(c)) continue;
-      // deviation bound: 1; thorough: 2 for read_all at equal sizes and for Easy at equal sizes
       int bound = 1; if (THOROUGH && zi == 0 && (h == solmon::READ_ALL || h == H_EASY)) bound = 2;
+      long long c = combo++;
+      if (bound == 1 && !S.mine(c)) continue;
       vx::Explorer ex; ex.max_deviations = bound;
       ex.run_all([&] {
         Input in; in.nvars = SZ[zi].nvars; in.ncons = SZ[zi].ncons; in.handler = h;
         in.bytes = binary ? deviate_binary(B[bi].s, ex) : deviate_text(B[bi].s, ex);
         int nd = ex.deviations_upto(ex.trace.size());
+        if (bound == 2 && !S.mine(pairidx++)) return;
         in.family = std::string(nd == 0 ? "base" : nd == 1 ? "dev1" : "dev2") + (binary ? "_binary" : "_text") + ":" + B[bi].name + ":" + SZ[zi].name;
         in.valid_base = nd == 0 && zi == 0;
-        emit(in, false);
+        if (!COUNT_ONLY) emit(in, false);
         if (nd) R.stat(nd == 1 ? "deviation1_inputs" : "deviation2_inputs");
       });
-      R.stat("explorer_executions", ex.executions); R.stat("explorer_choice_points", ex.choice_points);
+      if (bound == 1 || S.i == 0) { R.stat("explorer_executions", ex.executions); R.stat("explorer_choice_points", ex.choice_points); }
+      if (COUNT_ONLY && S.i == 0) std::fprintf(stderr, "combo %s %s %s %s bound=%d executions=%lld\n", B[bi].name.c_str(), binary ? "binary" : "text", SZ[zi].name, handler_name(h), bound, ex.executions);
     }
   }
 }
@@ -530,7 +533,7 @@ static void family_misc() {
 
 int main(int argc, char** argv) {
   S.parse(argc, argv);
-  THOROUGH = vx::has_flag(argc, argv, "--thorough");
+  THOROUGH = vx::has_flag(argc, argv, "--thorough"); COUNT_ONLY = vx::has_flag(argc, argv, "--count-only");
   solmon::MemFile mf; MF = &mf;
   { char b[4096]; ssize_t n = readlink("/proc/self/exe", b, sizeof b - 1); if (n > 0) EXE.assign(b, (size_t)n); }
   const char* work = vx::arg_value(argc, argv, "--work", "build/work/C14");
